@@ -192,7 +192,7 @@ pub fn inputs_c18(r: &mut Rng, n: usize, _tier: &str, out: &mut dyn Write) {
                 }
                 writeln!(out, "dmulf {} {}", dstr(sd * d), h(if r.chance(1, 5) { -q } else { q })).unwrap()
             }
-            24..=27 => writeln!(out, "dmulf {} {}", dstr(total_10ky(r)), h(factor_f64(r))).unwrap(),
+            24..=27 => writeln!(out, "{} {} {}", if r.chance(1, 3) { "fmuld" } else { "dmulf" }, dstr(total_10ky(r)), h(factor_f64(r))).unwrap(),
             32 => {
                 // a tiny duration times a huge factor whose product is still representable (or just not)
                 let lim = match r.below(3) { 0 => 3, 1 => 1000, _ => 20_000 };
@@ -204,7 +204,9 @@ pub fn inputs_c18(r: &mut Rng, n: usize, _tier: &str, out: &mut dyn Write) {
                     _ => (r.below(1 << 53) as f64) * 2f64.powi(10 + r.below(14) as i32),
                 };
                 let q = target / d.abs() as f64;
-                writeln!(out, "dmulf {} {}", dstr(d), h(if r.chance(1, 4) { -q } else { q })).unwrap()
+                // (seeded change C18-9: the reversed-operand impl f64 * Duration with a whole-factor fast path casting the
+                // factor `as i64`: wrong for |q| >= 2^63 on tiny durations) -- both operand orders
+                writeln!(out, "{} {} {}", if r.chance(1, 2) { "fmuld" } else { "dmulf" }, dstr(d), h(if r.chance(1, 4) { -q } else { q })).unwrap()
             }
             28 => {
                 // products that are whole numbers of nanoseconds although the factor has many binary digits:
@@ -283,6 +285,7 @@ pub fn exec(op: &str, a: &[&str]) -> Option<String> {
         "in_seconds" => okf(s2u(a[0]).in_seconds()),
         "from_seconds_u" => okf(s2u(a[0]).from_seconds()),
         "dmulf" => okd(s2d(a[0]) * bb(s2f(a[1]))),
+        "fmuld" => okd(bb(s2f(a[1])) * s2d(a[0])), // the reversed-operand impl (f64 * Duration), same arguments
         "compose_f64" => {
             let sign: i8 = a[0].parse().unwrap();
             let f: Vec<f64> = a[1..8].iter().map(|s| bb(s2f(s))).collect();
